@@ -44,6 +44,7 @@ def run(ctx):
     r62(ctx)
     r63(ctx)
     r64(ctx)
+    r65(ctx)
 
 
 def _named(fv, name):
@@ -379,3 +380,62 @@ def r64(ctx):
         adds += [c for bi, c in cb.calls() if c.callee and ("checked_add" in c.callee.name or "saturating_add" in c.callee.name)]
     ctx.ob("R6.4", bool(adds or plus), f"{sb.name}/adds-parts", "summarize_payments no longer adds the HTLCs of one payment hash",
            where=f"{sb.file}:{sb.line}", sample="sum per payment hash")
+
+
+def r65(ctx):
+    ctx.rule("R6.5", "an approved invoice and its in-flight ledger entry are pruned only when the payment is complete "
+                     "(fulfilled or nothing outgoing) and the prune time has passed; a forwarded payment only when nothing is "
+                     "incoming and no invoice refers to it")
+    p = ctx.prog
+    b = p.fn(f"{NS}::is_invoice_prunable")
+    fv = fnview(ctx, b, policy=False)
+    nv = fv.named()
+    vals = {}
+    for bi in sorted(fv.live_blocks()):
+        for st in b.stmts(bi):
+            if st.kind == "a" and st.place.local == 0 and not st.place.proj and st.rv.ops:
+                vals[bi] = render(strip_ref(nv.expr(st.rv.ops[0])))
+    ctx.ob("R6.5", set(vals.values()) == {"is_payment_complete", "false"}, f"{b.name}/result",
+           f"is_invoice_prunable returns {sorted(set(vals.values()))} (expected: false, or is_payment_complete once past the prune time)",
+           where=f"{b.file}:{b.line}", sample=sorted(set(vals.values())))
+    calls_ = {c.callee.name.rsplit("::", 1)[-1] for bi, c in b.calls() if c.callee}
+    dests = {b.local_name(c.dest.local) for bi, c in b.calls() if c.callee and c.callee.name.endswith("::is_no_outgoing") and c.dest.is_local()}
+    ctx.ob("R6.5", {"is_fulfilled", "is_no_outgoing"} <= calls_ and "is_payment_complete" in dests, f"{b.name}/complete-definition",
+           f"is_payment_complete is not is_fulfilled() || is_no_outgoing() (calls {sorted(calls_ & {'is_fulfilled', 'is_no_outgoing', 'is_no_incoming'})})",
+           where=f"{b.file}:{b.line}", sample="is_fulfilled() || is_no_outgoing()")
+    # the complete-branch is taken only on the true edge of a test of is_past_prune_time
+    te = set()
+    for bi in sorted(fv.live_blocks()):
+        t = b.term(bi)
+        if t.kind == "switch" and t.discr.place is not None and t.discr.place.is_local():
+            l = t.discr.place.local
+            sd = fv.single_def(l)
+            src = l
+            if sd is not None and sd[1] != "T" and sd[2].kind == "a" and sd[2].rv.op == "use" and sd[2].rv.ops[0].place is not None:
+                src = sd[2].rv.ops[0].place.local
+            if b.local_name(src) == "is_past_prune_time" or b.local_name(l) == "is_past_prune_time":
+                fv._bool_switch(bi, t, False, "ok", te)
+    bad = [bi for bi, v in vals.items() if v != "false" and not fv.must_pass(bi, te)]
+    ctx.ob("R6.5", bool(te) and not bad, f"{b.name}/needs-prune-time", "is_invoice_prunable can return true before the prune time has passed",
+           where=f"{b.file}:{b.line}", sample="true only on the is_past_prune_time edge")
+    # forwarded payments
+    fb = p.fn(f"{NS}::is_forwarded_payment_prunable")
+    calls = {c.callee.name.rsplit("::", 1)[-1] for bi, c in fb.calls() if c.callee}
+    ctx.ob("R6.5", {"is_no_incoming", "is_no_outgoing"} <= calls and sum(1 for bi, c in fb.calls() if c.callee and c.callee.name.endswith("::get")) >= 2,
+           f"{fb.name}/conditions", f"is_forwarded_payment_prunable consults {sorted(calls)}", where=f"{fb.file}:{fb.line}",
+           sample="no invoice, no issued invoice, nothing incoming, nothing outgoing")
+    fvv = fnview(ctx, fb, policy=False)
+    trues = [r for r in fvv.return_sites() if r["kind"] in ("true", "maybe", "value")]
+    for nm in ("is_no_incoming", "is_no_outgoing"):
+        te = set()
+        for bi, c in fb.calls():
+            if c.callee and c.callee.name.endswith("::" + nm):
+                te |= fvv.result_edges(bi, c, "ok")
+        # the last condition is returned directly (tail); earlier ones must have been true
+        if nm == "is_no_incoming":
+            ctx.ob("R6.5", bool(te) and all(fvv.must_pass(r["block"], te) for r in trues), f"{fb.name}/needs/{nm}",
+                   f"a forwarded payment can be pruned although something is still incoming", where=f"{fb.file}:{fb.line}", sample=f"{nm}() required")
+    # who may decide pruning
+    R.who_may_call(ctx, "R6.5", lambda n: n == f"{NS}::is_invoice_prunable",
+                   {f"{NS}::prune_invoices": "approved invoices", f"{NS}::prune_issued_invoices": "issued invoices"},
+                   "is_invoice_prunable", floor=1, exclude=R.is_test_util)
